@@ -3,6 +3,8 @@ import CuqiVerif.Model.QMat
 import CuqiVerif.Model.C12
 import CuqiVerif.Model.C12_linear
 import CuqiVerif.Model.C12_ctor
+import CuqiVerif.Model.C12_geomeq
+import CuqiVerif.Model.C12_gradsamples
 open CuqiVerif CuqiVerif.Proto CuqiVerif.C12
 
 /-!
@@ -348,7 +350,25 @@ def parseLinForward (s : String) : Option LinForward :=
   | ["n"] => some .noShape
   | _ => none
 
+/-- `F|params`, `M|names`, `A|r|c`, `L`, `N`, `S`, `0` -/
+def parsePyArg (s : String) : Option PyArg :=
+  match s.splitOn "|" with
+  | ["F", p] => (parseParams p).map .function
+  | ["M", a] => some (.modelObject (if a = "_" then [] else a.splitOn ","))
+  | ["A", r, c] => do some (.ndarray (← r.toNat?) (← c.toNat?))
+  | ["L"] => some .listObj
+  | ["N"] => some .number
+  | ["S"] => some .strObj
+  | ["0"] => some .noneObj
+  | _ => none
+
 def stepCtor : List String → Option String
+  | ["ctorpy", f, g, j, ra, da] => do
+      some (fmtCExcept fmtInitRes (modelInitPy (← parsePyArg f) (← parsePyArg g) (← parsePyArg j) (← parseGeomArg ra) (← parseGeomArg da)))
+  | ["linctorpy", f, adj, ra, da] => do
+      let r := linearInitPy (← parsePyArg f) (← parsePyArg adj) (← parseGeomArg ra) (← parseGeomArg da)
+      some (fmtCExcept (fun (r : LinInitRes) =>
+        s!"ok {fmtBool r.matrixBacked} {fmtGeomRes r.range} {fmtGeomRes r.domain} {r.range.parDim} {r.domain.parDim} {fmtNames r.nonDefaultArgs}") r)
   | ["ctor", fc, g, j, ra, da, cached, params] => do
       let a : ModelInitArgs := { forwardCallable := ← parseBool fc, gradient := ← parseOptCallable g, jacobian := ← parseOptCallable j,
                                  rangeArg := ← parseGeomArg ra, domainArg := ← parseGeomArg da,
@@ -368,6 +388,82 @@ def stepCtor : List String → Option String
       let n ← ncols.toNat?
       let sd : SamplesData Rat ← if kind = "a" then some (.array rows n) else if kind = "l" then some (.list rows) else none
       some s!"it {sd.ns} {fmtMat sd.iter}"
+  | _ => none
+
+/-! ### geometry equality (`Model/C12_geomeq.lean`): values in prefix notation, fields separated by `~`
+    A~rank~dims…~n~data… | S~n~items… | G~nmro~classes…~kind~parDim~nvars~key~value… -/
+
+def parseManyA (p : List String → Option (AVal × List String)) : Nat → List String → Option (List AVal × List String)
+  | 0, rest => some ([], rest)
+  | n + 1, rest => do
+      let (v, rest) ← p rest
+      let (vs, rest) ← parseManyA p n rest
+      some (v :: vs, rest)
+
+def parseVarsA (p : List String → Option (AVal × List String)) : Nat → List String → Option (List (String × AVal) × List String)
+  | 0, rest => some ([], rest)
+  | n + 1, key :: rest => do
+      let (v, rest) ← p rest
+      let (vs, rest) ← parseVarsA p n rest
+      some ((key, v) :: vs, rest)
+  | _, _ => none
+
+def parseAVal : Nat → List String → Option (AVal × List String)
+  | 0, _ => none
+  | _ + 1, "A" :: rk :: rest => do
+      let rk ← rk.toNat?
+      let shape ← (rest.take rk).mapM String.toNat?
+      if shape.length ≠ rk then none else
+      match rest.drop rk with
+      | n :: rest => do
+          let n ← n.toNat?
+          let data := rest.take n
+          if data.length ≠ n then none else some (.arr shape data, rest.drop n)
+      | [] => none
+  | f + 1, "S" :: n :: rest => do
+      let (items, rest) ← parseManyA (parseAVal f) (← n.toNat?) rest
+      some (.seq items, rest)
+  | f + 1, "G" :: nm :: rest => do
+      let nm ← nm.toNat?
+      let mro ← (rest.take nm).mapM String.toNat?
+      if mro.length ≠ nm then none else
+      match rest.drop nm with
+      | kind :: pd :: nv :: rest => do
+          let (vars, rest) ← parseVarsA (parseAVal f) (← nv.toNat?) rest
+          some (.geom mro (← kind.toNat?) (← pd.toNat?) vars, rest)
+      | _ => none
+  | _, _ => none
+
+def parseGeomDesc (tok : String) : Option AVal :=
+  let fields := tok.splitOn "~"
+  match parseAVal (fields.length + 1) fields with
+  | some (v, []) => some v
+  | _ => none
+
+def stepGeq : List String → Option String
+  | ["geq", a, b] => do
+      let a ← parseGeomDesc a
+      let b ← parseGeomDesc b
+      some (match geomEqD 8 a b with | some true => "T" | some false => "F" | none => "unmodelled")
+  | _ => none
+
+/-- gradient with a Samples `wrt`:  gradsw M D R dir(smp | value token) isWrtPar conv   (conv = pass | exception class of `fun2par(samples)`) -/
+def parseObjConv (s : String) : ObjConv :=
+  if s = "pass" then .passes
+  else match [Err.notImplemented, Err.valueError, Err.typeError, Err.indexError, Err.keyError].find? (fun e => e.toString = s) with
+    | some e => .raises e
+    | none => .raisesOther s
+
+def stepGradSw : List String → Option String
+  | ["gradsw", m, d, r, dir, iwp, conv] => do
+      let D ← parseGeom d
+      let R ← parseGeom r
+      let M ← parseModel m R D
+      let dir ← parseGArg dir
+      let iwp ← parseBool iwp
+      some (match gradientFull M dir .samples true iwp (parseObjConv conv) with
+        | .ok v => fmtVal v
+        | .error e => s!"err {e.toString}")
   | _ => none
 
 def step : List String → String
@@ -468,6 +564,6 @@ def step : List String → String
         | _ => "bad-op"
       | _, _ => "bad-op"
     | _, _, _ => "bad-op"
-  | l => (stepCtor l).getD "bad-op"
+  | l => (((stepCtor l).orElse (fun _ => stepGeq l)).orElse (fun _ => stepGradSw l)).getD "bad-op"
 
 def main : IO Unit := runDriver step
